@@ -206,6 +206,15 @@ theorem load_safe_gen (b : Bytes) (hb : b.length < 2 ^ 64) :
     unfold load loadJson
     refine bind_safe b _ _ (readChunkAsString_safe b hb s hs) (fun text s1 h1 => ?_)
     split <;> exact h1
+  | tagged ta tb iha ihb =>
+    intro s hs
+    unfold load loadTaggedInto
+    refine bind_safe b _ _ (readChunk_safe b hb _ s hs) (fun tag s1 h1 => ?_)
+    split
+    · exact map_safe b _ _ (iha s1 h1)
+    · split
+      · exact map_safe b _ _ (ihb s1 h1)
+      · exact h1
 
 /-! ## little-endian numbers and slices -/
 
@@ -417,6 +426,7 @@ theorem lt_asymm : ∀ (ty : Ty) (a b : Val ty), lt ty a b = true → lt ty b a 
     · exact ⟨h1, Or.inr (ihv _ _ h2)⟩
   | arr t n ih => intro a b h; exact ltLex_asymm (lt t) ih a b h
   | json => intro a b h; simp [lt] at h
+  | tagged ta tb _ _ => intro a b h; simp [lt] at h
 
 theorem setInsert_append {α : Type} (lt : α → α → Bool) (hasym : ∀ a b, lt a b = true → lt b a = false)
     (x : α) : ∀ acc : List α, (∀ y ∈ acc, lt y x = true) → setInsert lt x acc = acc ++ [x] := by
@@ -699,6 +709,106 @@ theorem rt_ptr {α : Type} (b : Bytes) (hb : b.length < 2 ^ 64) (sv : α → Byt
     have : (numVal [0] != 0) = false := by decide
     rw [this, if_neg (by simp), h2, Res.map_ok, List.length_append, Nat.add_assoc]
 
+theorem all_replicate {α : Type} (p : α → Bool) (n : Nat) (x : α) (h : p x = true) : (List.replicate n x).all p = true := by
+  rw [List.all_eq_true]; intro y hy; rw [List.eq_of_mem_replicate hy]; exact h
+
+theorem eq_replicate_of_all {α : Type} (l : List α) (d : α) (h : ∀ x ∈ l, x = d) : l = List.replicate l.length d := by
+  induction l with
+  | nil => rfl
+  | cons x xs ih =>
+    rw [List.length_cons, List.replicate_succ, h x List.mem_cons_self, ← ih (fun y hy => h y (List.mem_cons_of_mem _ hy))]
+
+variable [JsonCodec] in
+/-- the default-constructed object is recognised as such … -/
+theorem isDflt_dflt : ∀ ty : Ty, isDflt ty (dflt ty) = true := by
+  intro ty
+  induction ty with
+  | pod n => simp [isDflt, dflt, bytesAreZero]
+  | str => rfl
+  | vecPod n => rfl
+  | seq t _ => rfl
+  | set t _ => rfl
+  | map k v _ _ => rfl
+  | pair a b iha ihb => simp only [isDflt, dflt, iha, ihb]; rfl
+  | ptr t _ => rfl
+  | mset t _ => rfl
+  | mmap k v _ _ => rfl
+  | arr t n ih => simp only [isDflt, dflt, List.length_replicate, beq_self_eq_true, Bool.true_and]; exact all_replicate _ _ _ ih
+  | json => exact JsonCodec.isDflt_dflt
+  | tagged a b iha ihb => simp only [isDflt, dflt, iha, ihb, bytesAreZero]; simp
+
+variable [JsonCodec] in
+/-- … and nothing else is -/
+theorem isDflt_eq : ∀ (ty : Ty) (v : Val ty), isDflt ty v = true → v = dflt ty := by
+  intro ty
+  induction ty with
+  | pod n => intro (v : Bytes) h; have h' : v = List.replicate n 0 := by simpa [isDflt, bytesAreZero] using h
+             exact h'
+  | str => intro (v : Bytes) h; have h' : v = [] := by simpa [isDflt] using h
+           exact h'
+  | vecPod n => intro (v : Bytes) h; have h' : v = [] := by simpa [isDflt] using h
+                exact h'
+  | seq t _ => intro (v : List (Val t)) h; have h' : v = [] := by simpa [isDflt] using h
+               exact h'
+  | set t _ => intro (v : List (Val t)) h; have h' : v = [] := by simpa [isDflt] using h
+               exact h'
+  | map k w _ _ => intro (v : List (Val k × Val w)) h; have h' : v = [] := by simpa [isDflt] using h
+                   exact h'
+  | pair a b iha ihb =>
+    intro (v : Val a × Val b) h
+    simp only [isDflt, Bool.and_eq_true] at h
+    exact Prod.ext (iha v.1 h.1) (ihb v.2 h.2)
+  | ptr t _ => intro (v : Option (Val t)) h; have h' : v = none := by simpa [isDflt] using h
+               exact h'
+  | mset t _ => intro (v : List (Val t)) h; have h' : v = [] := by simpa [isDflt] using h
+                exact h'
+  | mmap k w _ _ => intro (v : List (Val k × Val w)) h; have h' : v = [] := by simpa [isDflt] using h
+                    exact h'
+  | arr t n ih =>
+    intro (v : List (Val t)) h
+    simp only [isDflt, Bool.and_eq_true, beq_iff_eq] at h
+    have := eq_replicate_of_all v (dflt t) (fun x hx => ih x (List.all_eq_true.mp h.2 x hx))
+    rw [h.1] at this
+    exact this
+  | json => intro v h; exact JsonCodec.isDflt_eq v h
+  | tagged a b iha ihb =>
+    intro (v : Bytes × Val a × Val b) h
+    simp only [isDflt, Bool.and_eq_true, bytesAreZero, beq_iff_eq] at h
+    exact Prod.ext h.1.1 (Prod.ext (iha v.2.1 h.1.2) (ihb v.2.2 h.2))
+
+/-- tagged user class, generic in its two optional members: saved from an object whose unselected members are default,
+loaded into a default-constructed object -/
+theorem rt_tagged {α β : Type} (b : Bytes) (hb : b.length < 2 ^ 64) (sva : α → Bytes) (svb : β → Bytes)
+    (la : St → Res α) (lb : St → Res β) (da : α) (db : β) (tag : Bytes) (x : α) (y : β) (htl : tag.length = 4)
+    (h1 : tagSel tag = 1 → RT b sva la x ∧ y = db)
+    (h2 : tagSel tag = 2 → x = da ∧ RT b svb lb y)
+    (h0 : tagSel tag ≠ 1 → tagSel tag ≠ 2 → x = da ∧ y = db) :
+    RT b (fun v : Bytes × α × β => chunk v.1 ++ (if tagSel v.1 == 1 then sva v.2.1 else if tagSel v.1 == 2 then svb v.2.2 else []))
+      (loadTaggedInto la lb (List.replicate 4 0, da, db) b) (tag, x, y) := by
+  intro off r hat
+  simp only at hat ⊢
+  rw [At_append] at hat
+  obtain ⟨r1, hr⟩ := readChunk_at b hb off r tag (by rw [htl]; decide) hat.1
+  rw [htl] at hr
+  unfold loadTaggedInto
+  rw [hr, Res.bind_ok]
+  by_cases s1 : tagSel tag = 1
+  · obtain ⟨hx, hy⟩ := h1 s1
+    simp only [s1, beq_self_eq_true, if_true] at hat ⊢
+    obtain ⟨r2, hl⟩ := hx _ r1 hat.2
+    exact ⟨r2, by rw [hl, Res.map_ok, hy, List.length_append, Nat.add_assoc]⟩
+  · have e1 : (tagSel tag == 1) = false := by simp [s1]
+    by_cases s2 : tagSel tag = 2
+    · obtain ⟨hx, hy⟩ := h2 s2
+      have e2t : (tagSel tag == 2) = true := by simp [s2]
+      simp only [e1, e2t, if_true, Bool.false_eq_true, if_false] at hat ⊢
+      obtain ⟨r2, hl⟩ := hy _ r1 hat.2
+      exact ⟨r2, by rw [hl, Res.map_ok, hx, List.length_append, Nat.add_assoc]⟩
+    · have e2 : (tagSel tag == 2) = false := by simp [s2]
+      obtain ⟨hx, hy⟩ := h0 s1 s2
+      simp only [e1, e2, Bool.false_eq_true, if_false, List.append_nil]
+      exact ⟨r1, by rw [hx, hy]⟩
+
 variable [JsonCodec] in
 theorem save_load_rt (b : Bytes) (hb : b.length < 2 ^ 64) :
     ∀ (ty : Ty) (v : Val ty), wf ty v = true → sizesFit ty v = true → jsonRT ty v → RT b (save ty) (load b ty) v := by
@@ -816,6 +926,32 @@ theorem save_load_rt (b : Bytes) (hb : b.length < 2 ^ 64) :
     refine ⟨r', ?_⟩
     simp only [load, loadJson]
     rw [h, Res.bind_ok, hrd]
+  | tagged ta tb iha ihb =>
+    intro (v : Bytes × Val ta × Val tb) hw hf hj
+    obtain ⟨tag, x, y⟩ := v
+    simp only [wf, Bool.and_eq_true, beq_iff_eq] at hw
+    simp only [sizesFit] at hf
+    simp only [jsonRT] at hj
+    simp only [beq_iff_eq] at hf
+    have hw2 := hw.2
+    have key := rt_tagged b hb (save ta) (save tb) (load b ta) (load b tb) (dflt ta) (dflt tb) tag x y hw.1
+      (fun h1 => by
+        rw [if_pos h1] at hw2 hf
+        simp only [Bool.and_eq_true] at hw2
+        exact ⟨iha x hw2.1 hf (hj.1 h1), isDflt_eq tb y hw2.2⟩)
+      (fun h2 => by
+        have n1 : ¬ tagSel tag = 1 := by rw [h2]; decide
+        rw [if_neg n1, if_pos h2] at hw2 hf
+        simp only [Bool.and_eq_true] at hw2
+        exact ⟨isDflt_eq ta x hw2.1, ihb y hw2.2 hf (hj.2 h2)⟩)
+      (fun n1 n2 => by
+        rw [if_neg n1, if_neg n2] at hw2
+        simp only [Bool.and_eq_true] at hw2
+        exact ⟨isDflt_eq ta x hw2.1, isDflt_eq tb y hw2.2⟩)
+    intro off r hat
+    simp only [save] at hat ⊢
+    simp only [load]
+    exact key off r hat
 
 
 /-! ## `operator<` of the model is a strict weak order; containers stay sorted; loaded values are well-formed -/
@@ -919,6 +1055,7 @@ theorem lt_negTrans : ∀ (ty : Ty), NegTrans (lt ty) := by
   | mmap k v ihk ihv => exact ltLex_negTrans _ (pairLt_negTrans (lt k) (lt v) ihk ihv)
   | arr t n ih => exact ltLex_negTrans (lt t) ih
   | json => intro a b c _ _; rfl
+  | tagged ta tb _ _ => intro a b c _ _; rfl
 
 /-- transitivity from asymmetry and negative transitivity -/
 theorem trans_of_asymm_negTrans {α : Type} (lt : α → α → Bool) (hasym : ∀ a b, lt a b = true → lt b a = false)
@@ -1796,6 +1933,44 @@ theorem lt_tricho : ∀ (ty : Ty), keyable ty = true → ∀ (a b : Val ty), wf 
     exact ltLex_tricho (lt t) (fun x => wf t x = true) (fun x y hx hy => ih hk x y hx hy) a b
       (List.all_eq_true.mp ha.2) (List.all_eq_true.mp hb.2) h1 h2
   | json => intro hk; simp [keyable] at hk
+  | tagged ta tb _ _ => intro hk; simp [keyable] at hk
+
+/-- a successful element loop is exactly a chain of element loads -/
+theorem loadN_ok_iff {α : Type} (ld : St → Res α) : ∀ (n : Nat) (s : St) (l : List α) (s' : St),
+    loadN ld n s = .ok l s' ↔ l.length = n ∧ Steps ld s l s' := by
+  intro n
+  induction n with
+  | zero =>
+    intro s l s'
+    simp only [loadN]
+    constructor
+    · intro h; injection h with h1 h2; subst h1 h2; exact ⟨rfl, Steps.nil s⟩
+    · rintro ⟨hl, hs⟩
+      cases l with
+      | nil => cases hs; rfl
+      | cons a as => simp at hl
+  | succ n ih =>
+    intro s l s'
+    simp only [loadN]
+    constructor
+    · intro h
+      cases h1 : ld s with
+      | err e s1 => rw [h1] at h; cases h
+      | ok a s1 =>
+        rw [h1, Res.bind_ok] at h
+        cases h2 : loadN ld n s1 with
+        | err e s2 => rw [h2] at h; cases h
+        | ok as s2 =>
+          rw [h2, Res.map_ok] at h
+          injection h with e1 e2
+          subst e1 e2
+          obtain ⟨hl, hs⟩ := (ih s1 as s2).mp h2
+          exact ⟨by simp [hl], Steps.cons s s1 s2 a as h1 hs⟩
+    · rintro ⟨hl, hs⟩
+      cases hs with
+      | nil => simp at hl
+      | cons _ s1 _ a as h1 hrest =>
+        rw [h1, Res.bind_ok, (ih s1 as s').mpr ⟨by simpa using hl, hrest⟩, Res.map_ok]
 
 /-! ## every successful load yields a well-formed value -/
 
@@ -1984,5 +2159,22 @@ theorem load_good (b : Bytes) (hb : b.length < 2 ^ 64) :
       split
       · exact ⟨this, rfl⟩
       · exact this
+  | tagged ta tb iha ihb =>
+    intro s hs
+    unfold load loadTaggedInto
+    refine good_bind b (fun d => d.length = 4) _ _ _ (good_readChunk b hb 4 s hs) (fun tag s1 h1 hl => ?_)
+    by_cases e1 : tagSel tag = 1
+    · simp only [e1, beq_self_eq_true, if_true]
+      refine good_map b _ _ _ _ (iha s1 h1) (fun x hx => ?_)
+      simp only [wf, hl, beq_self_eq_true, Bool.true_and, e1, if_true, hx, isDflt_dflt]
+    · have f1 : (tagSel tag == 1) = false := by simp [e1]
+      by_cases e2 : tagSel tag = 2
+      · have e2t : (tagSel tag == 2) = true := by simp [e2]
+        simp only [f1, e2t, if_true, Bool.false_eq_true, if_false]
+        refine good_map b _ _ _ _ (ihb s1 h1) (fun y hy => ?_)
+        simp only [wf, hl, beq_self_eq_true, Bool.true_and, f1, e2t, if_true, Bool.false_eq_true, if_false, hy, isDflt_dflt]
+      · have f2 : (tagSel tag == 2) = false := by simp [e2]
+        simp only [f1, f2, Bool.false_eq_true, if_false]
+        exact ⟨h1, by simp only [wf, hl, beq_self_eq_true, Bool.true_and, f1, f2, Bool.false_eq_true, if_false, isDflt_dflt]⟩
 
 end Cppcms.C19
